@@ -34,7 +34,7 @@ const MICROSECOND: u128 = 1_000;
 pub fn parse_duration(i: &str) -> IResult<&str, Duration> {
     let (i, neg) = opt(parse_negative)(i)?;
     if i == "0" {
-        return Ok((i, Duration::zero()));
+        return Ok(("", Duration::zero()));
     }
     let (i, duration) = many1(parse_number_unit)(i)
         .map(|(i, d)| (i, d.iter().fold(Duration::zero(), |acc, next| acc + *next)))?;
